@@ -438,9 +438,12 @@ def check_C10(tier, seed):
     n = size(tier, 2400, 60000)
     rel_leg(o, "laws", "impl", n, seed)
     rel_leg(o, "fused-shapes-every-type", "fused-directed", 1600, seed)
+    rel_leg(o, "literal-pool", "literal-pool", 1600, seed)
     o.extra["rule"] = ("closed generated programs paired with their images under the four implementation-choice transformations; "
                        "complete enumeration of the shape the compiler fuses (local op integer literal, both orientations, 11 operators) "
-                       "applied to values of every type, against the same computation through a temporary")
+                       "applied to values of every type, against the same computation through a temporary; complete cross product of 32 literals that are "
+                       "close to one another (signed zeros, neighbouring floats, equal spellings in different types, range ends): a literal "
+                       "means the same whether or not the other one was written before it")
     return o.finish()
 
 
